@@ -396,6 +396,11 @@ def _(c):
                     cf = [3, 1, 2, 1, 3, 1][i % 6]
                 _attach_cov(sv, cf, k + i)
             pts.append(sv)
+        held = "keplerian" if (k + s) % 5 == 2 and fr not in EXTRA_FRAMES and all(np.linalg.norm(np.asarray(p_, dtype=float)[:3]) > 1e5 for p_ in pts) else "cartesian"
+        if held != "cartesian":
+            # an ephemeris held in another element form: the message carries cartesian coordinates, the object handed over keeps its form
+            for p_ in pts:
+                p_.form = held
         e = Ephem(pts, method="linear" if c.integer("method") else "lagrange", order=c.integer("order"))
         e.name, e.cospar_id = f"SAT-{s}", f"2020-00{s + 1}A"
         ephems.append(e)
@@ -412,6 +417,8 @@ def _(c):
             cmp.check("name_id", (ea.name, ea.cospar_id) == (getattr(eb, "name", None), getattr(eb, "cospar_id", None)), f"{getattr(eb, 'name', None)}")
             for pa, pb in zip(ea, eb):
                 sub = _Cmp()
+                if pa.form.name != "cartesian":
+                    pa = pa.copy(form="cartesian")
                 if pa.date.scale.name != ea.start.scale.name:
                     pa = pa.copy()
                     pa.date = pa.date.change_scale(ea.start.scale.name)
@@ -419,7 +426,9 @@ def _(c):
                 for asp, bad in sub.bad.items():
                     if asp != "name_id":
                         cmp.check(asp, not bad, "; ".join(bad))
+    forms_before = [[p_.form.name for p_ in e_] for e_ in ephems]
     _round_trip(c, "oem", obj, compare)
+    c.ensure("oem.object_written_keeps_its_form", [[p_.form.name for p_ in e_] for e_ in ephems] == forms_before)
 
 
 # ---------------------------------------------------------------------------------------------------------------------
